@@ -123,3 +123,279 @@ pub fn escaped_chars_of(text: &str) -> String {
     }
     v.iter().map(|x| x.to_string()).collect::<Vec<_>>().join(",")
 }
+
+// ---------------------------------------------------------------- whole templates
+
+use glass_easel_template_compiler::parse::{Position, Template, TemplateStructure};
+use std::ops::Range;
+
+pub struct Src<'a> {
+    pub text: &'a str,
+    line_starts: Vec<usize>,
+}
+
+impl<'a> Src<'a> {
+    pub fn new(text: &'a str) -> Self {
+        let mut line_starts = vec![0];
+        for (i, b) in text.bytes().enumerate() {
+            if b == b'\n' {
+                line_starts.push(i + 1);
+            }
+        }
+        Src { text, line_starts }
+    }
+    /// byte offset of (line, utf16 column); None if the position does not exist in the text
+    pub fn offset(&self, p: Position) -> Option<usize> {
+        let start = *self.line_starts.get(p.line as usize)?;
+        let end = self.line_starts.get(p.line as usize + 1).map(|x| x - 1).unwrap_or(self.text.len());
+        let mut col = 0u32;
+        let line = &self.text[start..end];
+        for (i, c) in line.char_indices() {
+            if col == p.utf16_col {
+                return Some(start + i);
+            }
+            col += c.len_utf16() as u32;
+            if col > p.utf16_col {
+                return None; // inside a surrogate pair
+            }
+        }
+        if col == p.utf16_col {
+            Some(end)
+        } else {
+            None
+        }
+    }
+    pub fn slice(&self, r: &Range<Position>) -> Option<&'a str> {
+        let a = self.offset(r.start)?;
+        let b = self.offset(r.end)?;
+        if a <= b {
+            Some(&self.text[a..b])
+        } else {
+            None
+        }
+    }
+}
+
+/// like `expr` but scope references carry the source spelling: (scope i "name")
+pub fn expr_named(e: &Expression, src: &Src) -> String {
+    // re-use `expr` and patch scope refs: simplest is a dedicated walk
+    fn walk(e: &Expression, src: &Src, out: &mut Vec<(usize, String)>) {
+        if let Expression::ScopeRef { index, location } = e {
+            out.push((*index, src.slice(location).unwrap_or("?BADLOC?").to_string()));
+        }
+        for s in e.sub_expressions() {
+            walk(s, src, out);
+        }
+    }
+    let mut names = vec![];
+    walk(e, src, &mut names);
+    let plain = expr(e);
+    // scope refs appear in `plain` in the same pre-order as `names`
+    let mut out = String::new();
+    let mut rest = plain.as_str();
+    let mut k = 0;
+    while let Some(i) = rest.find("(scope ") {
+        let j = i + rest[i..].find(')').unwrap();
+        out.push_str(&rest[..j]);
+        out.push(' ');
+        out.push_str(&q(names.get(k).map(|x| x.1.as_str()).unwrap_or("?MISSING?")));
+        out.push(')');
+        rest = &rest[j + 1..];
+        k += 1;
+    }
+    out.push_str(rest);
+    out
+}
+
+fn val(v: &Value, src: &Src) -> String {
+    match v {
+        Value::Static { value, .. } => format!("(static {})", q(value)),
+        Value::Dynamic { expression, .. } => format!("(dyn {})", expr_named(expression, src)),
+        _ => "(unknown)".into(),
+    }
+}
+
+fn optval(v: &Option<Value>, src: &Src) -> String {
+    match v {
+        None => "none".into(),
+        Some(v) => val(v, src),
+    }
+}
+
+fn refs(l: &[StaticAttribute]) -> String {
+    let mut o = String::from("(refs");
+    for a in l {
+        o.push_str(&format!(" ({} {})", q(&a.name.name), q(&a.value.name)));
+    }
+    o.push(')');
+    o
+}
+
+fn common_vals(c: &CommonElementAttributes, src: &Src, o: &mut String) {
+    if let Some((_, v)) = &c.id {
+        o.push_str(&format!(" (id {})", val(v, src)));
+    }
+    if let Some((_, v)) = &c.slot {
+        o.push_str(&format!(" (slotattr {})", val(v, src)));
+    }
+    for ev in &c.event_bindings {
+        o.push_str(&format!(
+            " (event {} {} {} {} {})",
+            q(&ev.name.name),
+            ev.is_catch as u8,
+            ev.is_mut as u8,
+            ev.is_capture as u8,
+            optval(&ev.value, src)
+        ));
+    }
+    for a in &c.data {
+        o.push_str(&format!(" (data {} {})", q(&a.name.name), optval(&a.value, src)));
+    }
+    for a in &c.marks {
+        o.push_str(&format!(" (mark {} {})", q(&a.name.name), optval(&a.value, src)));
+    }
+}
+
+pub fn nodes(l: &[Node], src: &Src) -> String {
+    let mut o = String::from("(");
+    for (i, n) in l.iter().enumerate() {
+        if i > 0 {
+            o.push(' ');
+        }
+        o.push_str(&node(n, src));
+    }
+    o.push(')');
+    o
+}
+
+pub fn node(n: &Node, src: &Src) -> String {
+    match n {
+        Node::Text(v) => format!("(text {})", val(v, src)),
+        Node::Comment(..) | Node::UnknownMetaTag(..) => "other".into(),
+        Node::Element(el) => match &el.kind {
+            ElementKind::Normal {
+                tag_name,
+                attributes,
+                class,
+                style,
+                change_attributes,
+                worklet_attributes,
+                children,
+                generics,
+                extra_attr,
+                common,
+                ..
+            } => {
+                let mut st = String::from("(statics");
+                for a in worklet_attributes {
+                    st.push_str(&format!(" (worklet {} {})", q(&a.name.name), q(&a.value.name)));
+                }
+                for a in generics {
+                    st.push_str(&format!(" (generic {} {})", q(&a.name.name), q(&a.value.name)));
+                }
+                for a in extra_attr {
+                    st.push_str(&format!(" (extra {} {})", q(&a.name.name), q(&a.value.name)));
+                }
+                st.push(')');
+                let mut vals = String::from("(vals");
+                for a in attributes {
+                    let is_model = matches!(a.prefix, NormalAttributePrefix::Model(_));
+                    vals.push_str(&format!(" (attr {} {} {})", q(&a.name.name), is_model as u8, optval(&a.value, src)));
+                }
+                if let ClassAttribute::String(_, v) = class {
+                    vals.push_str(&format!(" (class {})", val(v, src)));
+                }
+                if let StyleAttribute::String(_, v) = style {
+                    vals.push_str(&format!(" (style {})", val(v, src)));
+                }
+                for a in change_attributes {
+                    vals.push_str(&format!(" (change {} {})", q(&a.name.name), optval(&a.value, src)));
+                }
+                common_vals(common, src, &mut vals);
+                vals.push(')');
+                format!(
+                    "(elem {} {} {} {} {})",
+                    q(&tag_name.name),
+                    st,
+                    vals,
+                    refs(&common.slot_value_refs),
+                    nodes(children, src)
+                )
+            }
+            ElementKind::Pure { children, slot, slot_value_refs, .. } => format!(
+                "(pure {} {} {})",
+                match slot {
+                    Some((_, v)) => val(v, src),
+                    None => "none".into(),
+                },
+                refs(slot_value_refs),
+                nodes(children, src)
+            ),
+            ElementKind::For { list, item_name, index_name, key, children, .. } => format!(
+                "(for {} {} {} {} {})",
+                val(&list.1, src),
+                q(&item_name.1.name),
+                q(&index_name.1.name),
+                q(&key.1.name),
+                nodes(children, src)
+            ),
+            ElementKind::If { branches, else_branch, .. } => {
+                let mut o = String::from("(if (");
+                for (i, (_, c, body)) in branches.iter().enumerate() {
+                    if i > 0 {
+                        o.push(' ');
+                    }
+                    o.push_str(&format!("({} {})", val(c, src), nodes(body, src)));
+                }
+                o.push_str(") ");
+                match else_branch {
+                    Some((_, body)) => o.push_str(&format!("(else {})", nodes(body, src))),
+                    None => o.push_str("noelse"),
+                }
+                o.push(')');
+                o
+            }
+            ElementKind::TemplateRef { target, data, .. } => format!("(tmplref {} {})", val(&target.1, src), val(&data.1, src)),
+            ElementKind::Include { path, .. } => format!("(include {})", q(&path.1.name)),
+            ElementKind::Slot { name, values, common, .. } => {
+                let mut vals = String::from("(vals");
+                for a in values {
+                    vals.push_str(&format!(" (slotvalue {} {})", q(&a.name.name), optval(&a.value, src)));
+                }
+                common_vals(common, src, &mut vals);
+                vals.push(')');
+                format!("(slot {} {} {})", val(&name.1, src), vals, refs(&common.slot_value_refs))
+            }
+            _ => "other".into(),
+        },
+        _ => "other".into(),
+    }
+}
+
+pub fn template(t: &Template, src: &Src) -> String {
+    let mut o = format!("(tmpl {} (imports", q(&t.path));
+    for i in &t.globals.imports {
+        o.push(' ');
+        o.push_str(&q(&i.src.name));
+    }
+    o.push_str(") (includes");
+    for i in &t.globals.includes {
+        o.push(' ');
+        o.push_str(&q(&i.src.name));
+    }
+    o.push_str(") (scripts");
+    for s in &t.globals.scripts {
+        match s {
+            Script::Inline { module_name, .. } => o.push_str(&format!(" (inline {})", q(&module_name.name))),
+            Script::GlobalRef { module_name, src: s, .. } => o.push_str(&format!(" (ref {} {})", q(&module_name.name), q(&s.name))),
+            _ => {}
+        }
+    }
+    o.push_str(") (subs");
+    for s in &t.globals.sub_templates {
+        o.push_str(&format!(" ({} {})", q(&s.name.name), nodes(&s.content, src)));
+    }
+    o.push_str(&format!(") {})", nodes(&t.content, src)));
+    let _ = TemplateStructure::location(&t.content.get(0).map(|n| n.clone()).unwrap_or(Node::Comment(Comment::new("", Default::default()..Default::default()))));
+    o
+}
